@@ -95,7 +95,8 @@ fn gen(seed: u64, tier: Tier) -> Plan14 {
         let chunks = match rng.below(6) {
             0 => 1,
             1 => 2,
-            2 => 1 + rng.below(70) as u32,
+            2 => 1 + rng.below(140) as u32,
+            3 => 60 + rng.below(16) as u32,
             _ => 1 + rng.below(12) as u32,
         };
         let wire_len = *rng.pick(&[2u32, 2, 4, 8, 16, 32]);
@@ -333,7 +334,9 @@ fn exec(p: &Plan14, ctx: &mut Ctx) -> Result<(), String> {
             };
             let (Some(s), Some(m)) = (unwrap(s, ctx)?, unwrap(m, ctx)?) else { return Ok(()) };
             if calls_made == 0 {
-                return Err("the multithreaded type made no parallel call (stub not reached)".into());
+                // legitimate (e.g. an implementation that stays serial below a size threshold); the
+                // byte comparison below still applies
+                ctx.counters.inc("c14.no_parallel_call");
             }
             let what = if s.0 != m.0 {
                 Some("public share")
